@@ -24,6 +24,7 @@ ASSUMPTIONS = [
     "only hierarchies on the contract-inheriting base (DBC) are generated, as the property states",
     "a change of list contents that changes no single-falsified-contract verdict (e.g. a duplicated entry) is counted as a probe, not as a violation",
 ]
+STATE_MEASURE = "definition states: shape of the class hierarchy after each step of a history (bases by position, member kinds and contract roles, invariant events, constructor, metaclass form, late decorations); the key keeps the generic name"
 RUNS = {"quick": 6000, "thorough": 90000}
 BUDGET_S = {"quick": 70, "thorough": 1200}
 CHUNK = 25
